@@ -4,7 +4,7 @@
      1. shutdown receiver polled                                   -> Exit
      2. keys snapshot; will_ping; for each key: drain recv_nonblocking until None-yet / error, dispatching each message;
         on error dispatch disconnect + remove; otherwise heartbeat timeout -> dispatch disconnect + remove; otherwise ping
-     3. admit the streams waiting in the connect channel: dispatch connect, insert (HashMap::insert replaces)
+     3. take in the streams waiting in the connect channel: dispatch connect, insert (HashMap::insert replaces)
      4. drain the outgoing channel: unicast to the addressee if present, broadcast to every stream present
      5. sleep (not modelled)
 
@@ -134,11 +134,11 @@ Fixpoint phase2 (cfg : config) (will_ping : bool) (per : list (addr * per_addr))
   end.
 
 (* admission of the streams waiting in the channel *)
-Fixpoint admit (news : list (option addr * N)) (m : smap) : smap * list dispatch :=
+Fixpoint admission (news : list (option addr * N)) (m : smap) : smap * list dispatch :=
   match news with
   | [] => (m, [])
-  | (None, _) :: r => admit r m
-  | (Some a, lp) :: r => let '(m', ds) := admit r (insert a lp m) in (m', Connect a :: ds)
+  | (None, _) :: r => admission r m
+  | (Some a, lp) :: r => let '(m', ds) := admission r (insert a lp m) in (m', Connect a :: ds)
   end.
 
 Definition out_writes (ks : list addr) (o : out) : list write :=
@@ -169,7 +169,7 @@ Definition poll (cfg : config) (st : app_state) (inp : inputs) : result :=
   | P2Crash => Crash
   | P2Stuck m ds => Blocked {| streams := m; last_ping := lping |} ds
   | P2Go m ds ws =>
-    let '(m', cs) := admit (i_new inp) m in
+    let '(m', cs) := admission (i_new inp) m in
     Next {| streams := m'; last_ping := lping |} (ds ++ cs) (ws ++ flush (keys m') (i_out inp))
   end.
 
@@ -271,7 +271,7 @@ Definition wf_inputsb (cfg : config) (st : app_state) (inp : inputs) : bool :=
   match phase2 cfg (will_ping cfg st inp) (i_per inp) (i_order inp) (streams st) with
   | P2Go m _ _ =>
     nodupb (admitted inp) && forallb (fun a => negb (mem a (keys m))) (admitted inp) &&
-    forallb (out_okb (keys (fst (admit (i_new inp) m)))) (i_out inp)
+    forallb (out_okb (keys (fst (admission (i_new inp) m)))) (i_out inp)
   | _ => true
   end.
 
